@@ -10,7 +10,7 @@ from vf import qcheck, sqlgen, knowncases
 from vf.core import outcome_signature
 from vf.props import c18 as typesweep
 
-SETTINGS = ["partitions", "batch_size", "enable_optimizer", "enable_hash_joins", "application_name"]
+SETTINGS = ["partitions", "batch_size", "enable_optimizer", "enable_hash_joins", "application_name", "verify_optimized_plan"]
 PROBE = ([{"sql": "SELECT 1"},
           {"sql": "SELECT schema_name, table_name FROM list_tables() WHERE database_name = 'temp' ORDER BY 1, 2"},
           {"sql": "SELECT count(*), sum(a), min(b), max(b) FROM base0"}]
@@ -206,6 +206,10 @@ def run(chk):
                "WITH RECURSIVE c AS (SELECT 1 UNION ALL SELECT * FROM c) SELECT * FROM c LIMIT 3", "SELECT * FROM base0 t1 JOIN base0 t2 USING (nosuch)", "SELECT * FROM base0 NATURAL JOIN nums",
                "SELECT * FROM v0 WHERE a = 'x'", "INSERT INTO v0 VALUES (1)", "INSERT INTO base0 VALUES (1)", "INSERT INTO base0 VALUES ('x', 1)", "DROP TABLE v0", "DROP VIEW base0", "CREATE TEMP TABLE base0 (a INT)",
                "SET nosuch TO 1", "SET partitions TO 'x'", "SET partitions TO -1", "SET batch_size TO 99999999999", "RESET nosuch", "SHOW nosuch", "DESCRIBE nosuch", "EXPLAIN nosuch", "SELECT $1", "SELECT ?"]
+    # statements whose optimized plan binds (the failing part is removed by a constant-false filter) while the unoptimized
+    # plan, bound as well when verify_optimized_plan is on, fails
+    failing += ["SELECT * FROM (SELECT 1 INTERSECT SELECT 1) WHERE false", "SELECT * FROM (SELECT unnest([1, 2])) WHERE 1 = 0"]
+    failing += [f"SELECT * FROM ({f}) zz WHERE 1 = 0" for f in list(failing) if f.startswith("SELECT") and "zz" not in f]
     all_valid = corpus + gen_q + ddl
     streams = []     # (stream, kind, sql)
     n_mut = 60000 if thorough else 3600
@@ -233,6 +237,11 @@ def run(chk):
             spec.append(("stmt", i + j))
             steps += PROBE
             spec += [("probe", i + j)] * len(PROBE)
+        if (i // per) % 2 == 1:
+            # every other session runs with plan verification on (each query is bound a second time without the optimizer)
+            k0 = len(SETUP) + len(gen_load)
+            steps.insert(k0, {"sql": "SET verify_optimized_plan TO true", "out": "count"})
+            spec.insert(k0, ("setup", None))
         native = (i // per) % 6 == 5
         ex = ({"kind": "native", "threads": 4, "timeout_s": 120} if native else
               {"kind": "det", "policy": "random", "seed": rng.randint(0, 1 << 30), "partitions": rng.choice([1, 2, 4]), "step_budget": 2_000_000})
@@ -265,7 +274,7 @@ def run(chk):
                 elif spec[ds][0] != "stmt":
                     chk.violation({"kind": "session-dead-after-statement", "how": "process died in probe"}, f"process died while probing after {streams[k][2][:300]!r}" if k is not None and k >= 0 else "process died in setup probe", {"cases": [c]})
                 # statements before the dying one ran, but their outcomes are lost with the process: re-run them, and the rest, in fresh sessions
-                nset = len(SETUP) + len(gen_load) + len(PROBE)
+                nset = next(ix for ix, (w, kx) in enumerate(spec) if w == "stmt" or (w == "probe" and kx != -1))
                 for lo, hi, tag in ((nset, ds - (ds - nset) % (1 + len(PROBE)), "a"), (ds - (ds - nset) % (1 + len(PROBE)) + 1 + len(PROBE), len(spec), "b")):
                     if any(w == "stmt" and kk not in judged for (w, kk) in spec[lo:hi]):
                         c2 = dict(c)
@@ -340,7 +349,7 @@ def run(chk):
             if restart_from is not None:
                 rest_spec = spec[restart_from + 1 + len(PROBE):]
                 if any(w == "stmt" for (w, _) in rest_spec):
-                    nset = len(SETUP) + len(gen_load) + len(PROBE)
+                    nset = next(ix for ix, (w, kx) in enumerate(spec) if w == "stmt" or (w == "probe" and kx != -1))
                     c2 = dict(c)
                     c2["id"] = c["id"] + "+"
                     c2["steps"] = c["steps"][:nset] + c["steps"][restart_from + 1 + len(PROBE):]
